@@ -1,7 +1,7 @@
 SPECIFICATION Spec
 CONSTANTS
   Prepared = FALSE
-  MaxLen = 4
+  MaxLen = 3
   RenderReleasesRoot = FALSE
 INVARIANTS
   NoStaleRender
